@@ -6,7 +6,8 @@ export GOFLAGS=-mod=mod GOPROXY=off GOSUMDB=off GOTOOLCHAIN=local
 P=$1; shift
 # cheapest checks first; with FAST=1 the checks named in seeded/<id>/claims.txt run first and the run stops at the first check that reports the change
 CHECKS=${*:-C14 C19 C20 C05 C04 C13 C15 C07 C18 C10 C06 C11 C17 C08 C09 C16 C01 C02 C12 C03}
-for d in $V/seeded/${P}*/; do
+case "$P" in *\**) GL="$V/seeded/$P/";; *) GL="$V/seeded/${P}*/";; esac
+for d in $GL; do
   id=$(basename $d)
   [ -f $d/patch.diff ] || continue
   D=$(mktemp -d /tmp/sm.XXXXXX)
